@@ -142,16 +142,17 @@ fn graph2_to_1(g2: serde_json::Map<String, Value>) -> serde_json::Map<String, Va
         {
           let text = ts["text"].as_str().unwrap_or("").to_string();
           let range = ts["range"].clone();
-          // the pragma comment `// @deno-types="<text>"`: the range of the comment text is what v1 stores
-          // comment text starts after `//`; specifier token starts at range.start
-          let start_line = range[0][0].as_u64().unwrap_or(0);
+          // v1 stores the whole leading comment: ` @deno-types="<text>"` starting two characters after `//`.
+          // module_graph_1_to_2 recomputes the specifier range (quotes included) as
+          //   comment.start + 2 + offset_of_text_in_comment - 1, with offset 14 for this comment text,
+          // so the comment starts 15 columns before the opening quote.
+          let line = range[0][0].as_u64().unwrap_or(0);
           let start_col = range[0][1].as_u64().unwrap_or(0);
-          let prefix = " @deno-types=";
-          let comment_start_col = start_col.saturating_sub(prefix.len() as u64);
           let end_col = range[1][1].as_u64().unwrap_or(0);
+          let comment_col = start_col.saturating_sub(15);
           o.insert(
             "leadingComments".into(),
-            json!([{"text": format!("{prefix}\"{text}\""), "range": [[start_line, comment_start_col], [start_line, end_col]]}]),
+            json!([{"text": format!(" @deno-types=\"{text}\""), "range": [[line, comment_col], [line, end_col]]}]),
           );
         }
       }
@@ -842,5 +843,75 @@ pub fn gen_world(rng: &mut StdRng, faults: bool) -> World {
     let v = ["1.0.0", "1.1.0", "1.5.0", "2.0.0"][rng.gen_range(0..4)];
     world.lock.reqs.insert(format!("{n}@{r}"), v.into());
   }
+  world
+}
+
+
+// ------------------------------------------------------------------------------------------
+// C13: worlds for "manifest shortcut equals parsing": one package, files of mixed media types
+// exercising every serialised field of ModuleInfo
+pub fn gen_info_world(rng: &mut StdRng) -> World {
+  let mut world = World {
+    mods: Default::default(), roots: vec![], ext: Default::default(), sch: Default::default(), urls: Default::default(),
+    registry: Default::default(), lock: Default::default(), opts: Default::default(),
+  };
+  let name = "@s/p";
+  let v = "1.0.0";
+  let exts = ["ts", "ts", "js", "tsx", "dts", "jsx"];
+  let nfiles = rng.gen_range(3..=6);
+  let mut ids: Vec<(String, String)> = vec![];
+  let mut pv = PkgVersion { date: "none".into(), meta: "ok".into(), info: "none".into(), ..Default::default() };
+  for i in 0..nfiles {
+    let ext = if i == 0 { "ts" } else { exts[rng.gen_range(0..exts.len())] };
+    let id = format!("f{i}");
+    let file = if ext == "dts" { format!("/f{i}.d.ts") } else { format!("/f{i}.{ext}") };
+    world.urls.insert(id.clone(), format!("{JSR}{name}/{v}{file}"));
+    world.ext.insert(id.clone(), ext.into());
+    world.sch.insert(id.clone(), "https".into());
+    pv.files.insert(file, id.clone());
+    ids.push((id, ext.to_string()));
+  }
+  pv.exports = json!({".": "./f0.ts"});
+  for (i, (id, ext)) in ids.iter().enumerate() {
+    let mut items = vec![];
+    let typed = matches!(ext.as_str(), "ts" | "tsx" | "dts");
+    let forms: Vec<&str> = match ext.as_str() {
+      "dts" => vec!["static", "export", "type"],
+      "js" | "jsx" => vec!["static", "sidefx", "export", "dynamic", "jsdoc"],
+      _ => vec!["static", "sidefx", "export", "dynamic", "type"],
+    };
+    for _ in 0..rng.gen_range(0..=3) {
+      let f = forms[rng.gen_range(0..forms.len())];
+      let t = match rng.gen_range(0..8) {
+        0 => "raw:npm:chalk@5".to_string(),
+        1 => "!bad".to_string(),
+        2 => "raw:./missing.ts".to_string(),
+        _ => ids[rng.gen_range(0..ids.len())].0.clone(),
+      };
+      let mut it = Item { t, sp: ["0", "0", "1"][rng.gen_range(0..3)].into(), f: f.into(), a: "none".into(), tt: "-".into() };
+      if it.t.starts_with("raw:") || it.t == "!bad" {
+        it.sp = "0".into();
+      }
+      if f == "static" && rng.gen_bool(0.25) {
+        let tt = &ids[rng.gen_range(0..ids.len())].0;
+        if tt != &it.t {
+          it.tt = tt.clone();
+        }
+      }
+      items.push(it);
+    }
+    let st = if !typed && rng.gen_bool(0.3) { ids[rng.gen_range(0..ids.len())].0.clone() } else { "-".to_string() };
+    let st = if st == *id { "-".to_string() } else { st };
+    let _ = i;
+    world.mods.insert(id.clone(), Resp { k: "mod".into(), items, st, to: String::new(), src: None, headers: None, fin: None, stale: false });
+  }
+  let mut pkg = Pkg { versions: Default::default(), meta: "ok".into() };
+  pkg.versions.insert(v.into(), pv);
+  world.registry.insert(name.into(), pkg);
+  world.mods.insert("r".into(), Resp { k: "mod".into(), items: vec![Item { t: "raw:jsr:@s/p@1".into(), sp: "0".into(), f: "static".into(), a: "none".into(), tt: "-".into() }],
+    st: "-".into(), to: String::new(), src: None, headers: None, fin: None, stale: false });
+  world.ext.insert("r".into(), "ts".into());
+  world.sch.insert("r".into(), "file".into());
+  world.roots.push("r".into());
   world
 }
